@@ -67,6 +67,20 @@ static size_t v_w_setEndOfPropertyTLV(void *b, size_t off);
 #else
 #define V_HELLO_VALUE_CHECK(b, off, type) do { } while (0)
 #endif
+#ifdef V_HELLO_GATE
+/* GATE instance (decides the wireless direction of "wireless properties iff Wi-Fi" and the required set for ALL attribute
+ * tuples at once, symbolic name lengths included): the writers are abstracted by what their own contracts say about presence
+ * and length (proved in tlv_writers: absent iff the platform does not provide the attribute, legal length otherwise) and only
+ * the property header is written; everything else - which writers answerHello calls under which conditions, in which order,
+ * at which offsets, the end marker, the frame length, the transmit - is the real answerHello. */
+#define V_GATE_CALL(b, off, type, abs) ({ size_t r_ = 0; if (!(abs)) { uint8_t l_; V_ASSUME(v_tlv_len_legal((type), l_)); \
+        ((uint8_t *)(b))[(off)] = (type); ((uint8_t *)(b))[(off) + 1] = l_; r_ = 2u + l_; } r_; })
+#define WDEF3(name, type, abs) static size_t v_w_##name(void *b, size_t off, void *ctx) { (void)ctx; WBODY(V_GATE_CALL(b, off, type, abs), type, abs) }
+#define WDEF2(name, type, abs) static size_t v_w_##name(void *b, size_t off) { WBODY(V_GATE_CALL(b, off, type, abs), type, abs) }
+#else
+#define WDEF3(name, type, abs) static size_t v_w_##name(void *b, size_t off, void *ctx) { WBODY(name(b, off, ctx), type, abs) }
+#define WDEF2(name, type, abs) static size_t v_w_##name(void *b, size_t off) { WBODY(name(b, off), type, abs) }
+#endif
 #define WBODY(call, type, abs) \
     V_REQUIRE("C02.hello.contiguous: properties are laid out back to back", off == g_hc.end && !g_hc.ended); \
     V_REQUIRE("C02.hello.no-type-twice", (g_hc.seen & V_BIT(type)) == 0); \
@@ -80,8 +94,6 @@ static size_t v_w_setEndOfPropertyTLV(void *b, size_t off);
         g_hc.count++; g_hc.seen |= V_BIT(type); g_hc.end = off + r; \
     } \
     return r;
-#define WDEF3(name, type, abs) static size_t v_w_##name(void *b, size_t off, void *ctx) { WBODY(name(b, off, ctx), type, abs) }
-#define WDEF2(name, type, abs) static size_t v_w_##name(void *b, size_t off) { WBODY(name(b, off), type, abs) }
 WLIST3(WDEF3)
 WLIST2(WDEF2)
 static size_t v_w_setEndOfPropertyTLV(void *b, size_t off) {
@@ -142,5 +154,9 @@ void h_answer_hello(void) {
     V_POST("C03.hello-state", C03_HELLO_STATE(&st, f, o.mapper_real, o.mapper_apparent, o.mapper_gen_topology, o.mapper_gen_quick));
     V_POST("C03.hello-seq", st.mapper_seq == (V_ALLOC_OK(in.allocs0, 0) ? v_be16(f + 30) : o.mapper_seq));
     V_POST("C19.hello-wf", ST_SHAPE(&st) && st.see_list == o.see_list && st.small_icon == o.small_icon);
+#ifdef V_HELLO_GATE
+    if (g_cfg.wifi && g_led.tx_attempts > in.tx0) { V_CANARY("wireless"); }
+    if (!g_cfg.wifi && g_led.tx_attempts > in.tx0) { V_CANARY("wired"); }
+#endif
     V_CANARY("end");
 }
